@@ -198,6 +198,10 @@ ExpStats1W(c, s, rd) ==
                  IN AccPairs(f, c.a, [n \in 1..Len(have) |-> Get(s[have[n]], f)])]
           IN [opt |-> FALSE, alts |-> {AsReq(s[i]) \o Flatten1([m \in 1..Len(blocks) |-> blocks[q[m]]]) : q \in OrdersOf(Len(blocks))}]]
 
+\* stats1 -s: "Print iterative stats": one output record per input record, with the statistics of its group over the records
+\* read so far (including the current one) appended -- the window of -w without a bound.
+ExpStats1S(c, s) == ExpStats1W([c EXCEPT !.n = Len(s) + 1], s, "records")
+
 \* ---------------------------------------------------------------- merge-fields -f / -r (the harness derives the regex ^(x|y)$ from
 \* the names) / -c (collapse names are given as a table: field name -> name after removing the substring)
 Named(c, k) == \E m \in 1..Len(c.f) : c.f[m] = k
@@ -458,6 +462,7 @@ Allowed(c, s, out) ==
     [] c.v = "count-distinct" -> Match(ExpCountDistinct(c, s), out)
     [] c.v = "uniq" -> Match(ExpUniq(c, s), out)
     [] c.v = "count-similar" -> AllowedCountSimilar(c, s, out)
+    [] c.v = "stats1" /\ HasOpt(c, "-s") -> Match(ExpStats1S(c, s), out)
     [] c.v = "stats1" /\ c.n > 0 -> \E rd \in {"records", "contributing"} : Match(ExpStats1W(c, s, rd), out)
     [] c.v = "stats1" -> \E go \in GroupOrders : Match(ExpStats1(c, s, go), out)
     [] c.v = "merge-fields" -> Match(IF HasOpt(c, "-c") THEN ExpMergeCollapse(c, s) ELSE ExpMerge(c, s), out)
@@ -477,6 +482,7 @@ Pattern(c, s) ==
   CASE c.v = "count" -> ExpCount(c, s)
     [] c.v = "count-distinct" -> ExpCountDistinct(c, s)
     [] c.v = "uniq" -> ExpUniq(c, s)
+    [] c.v = "stats1" /\ HasOpt(c, "-s") -> ExpStats1S(c, s)
     [] c.v = "stats1" /\ c.n > 0 -> ExpStats1W(c, s, "records")
     [] c.v = "stats1" -> ExpStats1(c, s, "keyed")
     [] c.v = "merge-fields" -> IF HasOpt(c, "-c") THEN ExpMergeCollapse(c, s) ELSE ExpMerge(c, s)
